@@ -328,6 +328,33 @@ def apply(path, old, new):
     open(p, "w").write(s.replace(old, new))
 
 
+def reverted_fixes(env, filters):
+    """Every repaired defect must be reported again when its fix is taken out."""
+    results = []
+    fdir = os.path.join(ROOT, "findings")
+    for slug in sorted(os.listdir(fdir)):
+        fix = os.path.join(fdir, slug, "fix.diff")
+        if not os.path.exists(fix):
+            continue
+        prop = slug.split("-")[0]
+        name = "revert-fix-" + slug
+        if filters and not any(f in name or f == prop for f in filters):
+            continue
+        fresh_copy()
+        t0 = time.time()
+        r = subprocess.run(f"cd {REPO} && patch -R -p1 --no-backup-if-mismatch < {fix}", shell=True, stdout=subprocess.PIPE, stderr=subprocess.STDOUT, text=True)
+        if r.returncode != 0:
+            print(f"selftest error: cannot revert {fix}:\n{r.stdout[-300:]}")
+            results.append((name, prop, 1, 2, False, 0.0))
+            continue
+        r = sh(f"{ROOT}/check {prop} quick", env=env)
+        ok = r.returncode == 1
+        line = next((l for l in r.stdout.splitlines() if l.startswith("VIOLATION")), "")
+        results.append((name, prop, 1, r.returncode, ok, time.time() - t0))
+        print(f"{'ok  ' if ok else 'MISS'} {name:55s} {prop} expected=1 got={r.returncode} {time.time()-t0:5.1f}s {line[:140]}", flush=True)
+    return results
+
+
 def main():
     filters = sys.argv[1:]
     env = dict(os.environ, NEURONS_REPO=REPO, NEURONS_BUILD=SCRATCH + "/build", VERIF_SKIP_E2="1")
@@ -350,6 +377,7 @@ def main():
             print(f"{'ok  ' if ok else 'MISS'} {name:55s} {prop} expected={expect} got={r.returncode} {time.time()-t0:5.1f}s {line[:140]}", flush=True)
             if r.returncode == 2:
                 print(r.stdout[-1500:])
+        results += reverted_fixes(env, filters)
     finally:
         shutil.rmtree(SCRATCH, ignore_errors=True)
     bad = [r for r in results if not r[4]]
